@@ -58,10 +58,12 @@ where
     closed: AtomicBool::new(false),
   };
 
+  let producer_mailbox = Arc::new(p);
+  dispatcher.register_mailbox(&producer_mailbox);
   let receiver = TopicReceiver {
     dispatcher: Arc::downgrade(&dispatcher),
     consumer: c,
-    producer_mailbox: Arc::new(p),
+    producer_mailbox,
     subscriptions: Arc::new(Mutex::new(HashSet::new())),
     closed: AtomicBool::new(false),
   };
@@ -90,10 +92,12 @@ where
     closed: AtomicBool::new(false),
   };
 
+  let producer_mailbox = Arc::new(p);
+  dispatcher.register_mailbox(&producer_mailbox);
   let receiver = AsyncTopicReceiver {
     dispatcher: Arc::downgrade(&dispatcher),
     consumer: c,
-    producer_mailbox: Arc::new(p),
+    producer_mailbox,
     subscriptions: Arc::new(Mutex::new(HashSet::new())),
     closed: AtomicBool::new(false),
   };
